@@ -218,7 +218,7 @@ def _mapper_prop(extra_rule, assumptions):
 PROPS["C01"] = _mapper_prop("This property: translation agreement (R1 = R2 = implementation), unmap returns the mapped frame, parent flags on the walk.",
     ["leaf flags compared on bits 0-11 and 52-63", "W/U bits ignored by the recursive window (ring 0, CR0.WP=0)", "visited set keyed by 128-bit state hash"])
 PROPS["C02"] = _mapper_prop("This property: exact outcome classes incl. every allocator failure schedule (fault enumeration), no mapping change on Err, identical across implementations (same R1 verdict).",
-    ["where the documentation is silent (slot holds a table for a huge-page call) any Err is accepted but never Ok", "payload of PageAlreadyMapped unconstrained"])
+    ["where the documentation is silent (slot holds a table for a huge-page call) any Err is accepted but never Ok", "payload of PageAlreadyMapped = the frame of the refused request (what all three implementations report)"])
 PROPS["C09"] = _mapper_prop("This property: PROT_NONE access monitor on every non-table frame (stray reads/writes), garbage-prefilled recycled frames make missing zeroing visible, allocation request counts per call, only clean-up releases.",
     ["frame-granular monitor inside the simulated window plus process-level faults outside it"])
 PROPS["C10"] = _mapper_prop("This property: every state x clean_up / 12 ranges: each released frame checked at the moment of the callback (empty, unlinked, a level 1-3 table overlapping the range, once), no empty table left wholly inside the range, translations and other tables unchanged, second identical clean-up releases nothing.",
